@@ -57,9 +57,24 @@ def reduce_paramsets_requirements(paramsets_requirements, paramsets_user_configs
                 raise exceptions.InvalidModel(
                     f'Incorrect number of values ({len(v)}) for {k} were configured by you, expected {len(default_v)}.'
                 )
+            # no default to compare with (e.g. lumi): the number of parameters decides
+            elif (
+                isinstance(v, list)
+                and default_v is None
+                and len(v) != combined_paramset['n_parameters']
+            ):
+                raise exceptions.InvalidModel(
+                    f"Incorrect number of values ({len(v)}) for {k} were configured by you, expected {combined_paramset['n_parameters']}."
+                )
             elif v and default_v == 'undefined':
                 raise exceptions.InvalidModel(
                     f'{paramset_name} does not use the {k} attribute.'
+                )
+
+            # a required setting without default (e.g. the lumi auxdata and sigmas) must be configured
+            if v is None and k != 'fixed':
+                raise exceptions.InvalidModel(
+                    f"{paramset_name} requires the {k} attribute to be configured in the measurement."
                 )
 
             combined_paramset[k] = v
